@@ -173,7 +173,11 @@ pub const KEY_BS: &str = "glob-expansion-backslash-kept";
 /// explains the shell's answer.
 fn known(c: &GlobCase, _msg: &str) -> Option<&'static str> {
     let explains = |q: Quirks| matches!(check_with(c, q).verdict, Verdict::Pass);
-    if explains(Quirks { dot_after_nondir: true, backslash_kept: false }) {
+    // With the simulator's deviation built in, the case may also turn out to be one that POSIX
+    // leaves unspecified (e.g. a bracket expression containing a period in a directory that the
+    // strict model never lists): the strict verdict then rests on the deviation alone.
+    let dot = check_with(c, Quirks { dot_after_nondir: true, backslash_kept: false }).verdict;
+    if matches!(dot, Verdict::Pass | Verdict::Skip(_)) {
         return Some(KEY_DOT);
     }
     if explains(Quirks { dot_after_nondir: false, backslash_kept: true }) {
